@@ -77,7 +77,7 @@ DEFAULT_CFG = dict(
     chk="CRC32", ackInt=1000, ackLim=2, nakInt=1000, nakLim=2, chkInt=1000, chkLim=2, immNak=True,
     disp=False, sIdW=2, dIdW=2, sId=1, dId=2, seqW=2, seq0=0, indS=IND_DEFAULT, indD=IND_DEFAULT,
     fhS=FH_DEFAULT, fhD=FH_DEFAULT, file=[48, 49, 50, 51, 52, 53, 54, 55, 56, 57, 65, 66], mdOnly=False,
-    srcName="src.bin", dstName="dst.bin", dstShape="file", dstOld=[], msgs=[], memfs=False,
+    srcName="src.bin", dstName="dst.bin", dstShape="file", dstOld=[], msgs=[], memfs=False, more=[],
 )
 
 
